@@ -94,16 +94,6 @@ Proof.
   destruct ((3 <=? u64_at bs) && (len bs <? 36)) eqn:E3; [intros G; inversion G; reflexivity|].
   rewrite (slice_from_ok bs 8) by (unfold len in *; lia). cbn [bind].
   rewrite read_u64_le_ok by (unfold len in *; rewrite skipn_length; lia). cbn [bind].
-  assert (Hfin : forall (m : meta) (ra et ao : N),
-            (if (ra =? src_EMPTY_ADDRESS) && negb (len bs =? et)
-             then do s <- usize_add ra ao; if negb (s =? len bs) then Err (EFormat (len bs)) else Ok m
-             else Ok m) = Err e -> ao <= 1000 -> e = EFormat (len bs)).
-  { intros m ra et ao G Hao.
-    destruct ((ra =? src_EMPTY_ADDRESS) && negb (len bs =? et)) eqn:Er; [|discriminate].
-    apply andb_true_iff in Er as [Er _]. apply N.eqb_eq in Er. subst ra.
-    unfold usize_add, src_EMPTY_ADDRESS, U64MAX in G.
-    destruct (N.leb_spec (0 + ao) 18446744073709551615); [|lia].
-    cbn [bind] in G. destruct (negb (0 + ao =? len bs)); inversion G; reflexivity. }
   destruct (u64_at bs <=? 2) eqn:E2; cbn [bind].
   - rewrite (usize_sub_ok (len bs) 8) by lia. cbn [bind].
     rewrite slice_from_ok by lia. cbn [bind].
@@ -111,7 +101,13 @@ Proof.
     rewrite (usize_sub_ok (len bs) 16) by lia. cbn [bind].
     rewrite slice_from_ok by lia. cbn [bind].
     rewrite read_u64_le_ok by (unfold len in *; rewrite skipn_length; lia). cbn [bind].
-    intros G. eapply Hfin; [exact G|unfold src_open_addr_offset_v12; lia].
+    unfold u64_to_usize. cbv beta iota zeta.
+    intros G. unfold usize_add in G.
+    repeat match type of G with
+           | (if ?c then _ else _) = Err _ => destruct c
+           | bind (if ?c then _ else _) _ = Err _ => destruct c; cbn [bind] in G
+           | bind (Ok _) _ = Err _ => cbn [bind] in G
+           end; try discriminate; inversion G; reflexivity.
   - apply N.leb_gt in E2.
     assert (H36 : 36 <= len bs).
     { apply andb_false_iff in E3. destruct E3 as [E3|E3]; [apply N.leb_gt in E3; lia|apply N.ltb_ge in E3; exact E3]. }
@@ -124,7 +120,13 @@ Proof.
     rewrite (usize_sub_ok (len bs - 4) 16) by lia. cbn [bind].
     rewrite slice_from_ok by lia. cbn [bind].
     rewrite read_u64_le_ok by (unfold len in *; rewrite skipn_length; lia). cbn [bind].
-    intros G. eapply Hfin; [exact G|unfold src_open_addr_offset_v3; lia].
+    unfold u64_to_usize. cbv beta iota zeta.
+    intros G. unfold usize_add in G.
+    repeat match type of G with
+           | (if ?c then _ else _) = Err _ => destruct c
+           | bind (if ?c then _ else _) _ = Err _ => destruct c; cbn [bind] in G
+           | bind (Ok _) _ = Err _ => cbn [bind] in G
+           end; try discriminate; inversion G; reflexivity.
 Qed.
 
 (* the coarse classification used by the C10 correspondence agrees with the model of Fst::new *)
